@@ -62,7 +62,22 @@ def _sock_script(draw, gen: int):
     tracked_at = draw(st.integers(0, n - 1))
     for i in range(n):
         if i == tracked_at:
-            pre = draw(st.sampled_from(["none", "fault1", "fault2", "fault3", "down", "down", "chain", "down_armed", "late_retry"]))
+            pre = draw(st.sampled_from(["none", "fault1", "fault2", "fault3", "down", "down", "chain", "down_armed", "late_retry", "long_outage"]))
+            if pre == "long_outage":
+                # every connection attempt is refused for about as long as the stock lifetime: the message is submitted
+                # so that one of the 2 s retries falls exactly at a + L + delta, and the network accepts from just before
+                # that attempt (documented lifetimes of the stock policies: 30 s / 30 s / 1 s)
+                name = draw(st.sampled_from(["idem", "nonidem", "conn"]))
+                L = DOCUMENTED[name][1]
+                delta = draw(st.sampled_from([-0.125, 0.0, 0.125, 2.0]))
+                ops.append(["default", "refuse"])
+                ops.append(["reset"])
+                ops.append(["advance", (-L - delta) % 2.0])
+                ops.append(["send", "T", name, None])
+                ops.append(["advance_rel_exact", L + delta - 0.0625])
+                ops.append(["default", "accept"])
+                ops.append(["advance", 4.0])
+                continue
             if pre == "late_retry":
                 # accepted while the link is down; the write on the first connection (0.5 s later) fails; the next
                 # connection is established around the ORIGINAL deadline a + L (the lifetime does not restart on a retry)
@@ -174,6 +189,11 @@ def run_sock(case, stats: Stats | None):
             elif name == "script":
                 for k_, lat_ in op[1]:
                     net.script.append((k_, lat_))
+            elif name == "default":
+                net.default = (op[1], 0.0)
+            elif name == "advance_rel_exact":
+                if tracked is not None and tracked["a"] + op[1] > loop.time():
+                    loop.advance(tracked["a"] + op[1] - loop.time())
             elif name == "advance":
                 loop.advance(op[1])
             elif name == "advance_rel":
@@ -212,7 +232,7 @@ def run_sock(case, stats: Stats | None):
             if late:
                 bad("sent-after-expiry", f"message pid={m['pid']} accepted at t={m['a']} with lifetime {m['L']} was written at "
                                          f"t={late[0][0]} (>= {m['a'] + m['L']})")
-        classes = [f"gen{gen}"]
+        classes = [f"gen{gen}"] + (["long-outage"] if ["default", "refuse"] in case["ops"] else [])
         nt = False
         if tracked is not None:
             ss = starts[tracked["pid"]]
@@ -312,7 +332,22 @@ def _api_script(draw, gen: int):
     ops = []
     used = set()
     for _ in range(draw(st.integers(2, 7))):
-        pre = draw(st.sampled_from(["none", "none", "fault1", "fault2", "fault3", "down", "down", "down_armed"]))
+        pre = draw(st.sampled_from(["none", "none", "fault1", "fault2", "fault3", "down", "down", "down_armed", "long_outage"]))
+        lo_ac = draw(st.sampled_from(ac_ids))
+        if pre == "long_outage" and "lo" not in used and not ({("t", lo_ac), ("p", lo_ac), "u"} & used):
+            # the command is submitted during an outage that lasts about as long as the documented lifetime (30 s)
+            used.add("lo")
+            delta = draw(st.sampled_from([-0.125, 0.0, 0.125, 2.0]))
+            ac = lo_ac
+            ops.append(["default", "refuse"])
+            ops.append(["reset"])
+            ops.append(["advance", (-30.0 - delta) % 2.0])
+            ops.append(draw(st.sampled_from([["cmd", "toggle", ac], ["cmd", "power", ac, True], ["cmd", "update"]])))
+            ops.append(["advance_rel_exact", 30.0 + delta - 0.0625])
+            ops.append(["default", "accept"])
+            ops.append(["advance", 4.0])
+            used.add(("t", ac)); used.add(("p", ac)); used.add("u")
+            continue
         if pre.startswith("fault"):
             ops.append(["fault", int(pre[-1])])
         elif pre == "down":
@@ -405,6 +440,10 @@ def run_api(case, stats: Stats | None):
             elif name == "advance_rel":
                 target = last_a + op[1] + op[2]
                 loop.advance(max(0.0, target - loop.time()))
+            elif name == "default":
+                net.default = (op[1], 0.0)
+            elif name == "advance_rel_exact":
+                loop.advance(max(0.0, last_a + op[1] - loop.time()))
             elif name == "cmd":
                 last_a = loop.time()
                 hit_by_armed = armed_for == "next" and net.current is not None and net.current.fail_after is not None
@@ -453,7 +492,7 @@ def run_api(case, stats: Stats | None):
                             content_of[b] = (mt, data)
                 i += 1
         # ---- judge
-        classes = [f"gen{gen}"]
+        classes = [f"gen{gen}"] + (["long-outage"] if ["default", "refuse"] in case["ops"] else [])
         nt = False
         for hb, ss in ident.items():
             c = content_of.get(hb)
@@ -535,7 +574,7 @@ def shards(tier: str):
 def floors(tier: str):
     return {"fault-hit-tracked": 100, "accepted-while-down": 100, "resent-first": 30, "open-at-deadline": 5,
             "open-just-before-deadline": 5, "open-just-after-deadline": 5, "toggle-on-wire": 50, "retried": 30,
-            "error-request-on-wire": 30, "reconnect-near-deadline-after-fault": 40}
+            "error-request-on-wire": 30, "reconnect-near-deadline-after-fault": 40, "long-outage": 150}
 
 
 def run_shard(spec, seed: int, tier: str):
